@@ -23,7 +23,7 @@ RULE = ("each case: SDMF/MDMF, k<=3, N<=6 on N..N+2 servers; a writer performs 2
 LEVEL_TEXT = "Random histories and schedules; what each client was shown is recorded at the wire, so the oracles do not depend on client-internal state."
 ASSUMPTIONS = ["one writer at a time (C12 covers races)", "servers are honest except for going offline and being rolled back to shares they held earlier",
                "'located' = answers delivered to the surveying client before its survey completed (the harness stops delivering at that moment; for the plain read, between the start and the end of each ServermapUpdater.update)"]
-REQUIRED_CLASSES = ["plain-read-started-over", "servers-swapped-at-first-fetch", "retrieve-needs-server-reads", "servers-dropped-during-read", "ro-read-with-dropouts-ok", "planted-share", "in-place-update", "stale-shares-at-read", "newer-unrecoverable-seen", "replay", "publish-with-offline", "read-older-than-newest", "mdmf", "sdmf", "publish-failed"]
+REQUIRED_CLASSES = ["modify-raced-by-another-writer", "plain-read-started-over", "servers-swapped-at-first-fetch", "retrieve-needs-server-reads", "servers-dropped-during-read", "ro-read-with-dropouts-ok", "planted-share", "in-place-update", "stale-shares-at-read", "newer-unrecoverable-seen", "replay", "publish-with-offline", "read-older-than-newest", "mdmf", "sdmf", "publish-failed"]
 BUDGET = {"quick": 900, "thorough": 7200}
 W = "slot_testv_and_readv_and_writev"
 
@@ -85,7 +85,9 @@ def cases(draw):
     if forced_reads:
         reads = forced_reads + reads[:1]
     return {"hsalt": draw(st.integers(0, 15)), "threads": draw(st.sampled_from(["sync", "async"])), "fmt": draw(st.sampled_from(["sdmf", "mdmf", "mdmf"])), "k": k, "n": n, "servers": servers, "steps": steps, "reads": reads,
-            "pad": draw(st.sampled_from([0, 0, 0, 4500 * k] if not forced_reads else [4500 * k, 4500 * k, 0]))}
+            "pad": draw(st.sampled_from([0, 0, 0, 4500 * k] if not forced_reads else [4500 * k, 4500 * k, 0])),
+            # a modify() by the writer during which another write-cap holder publishes (between the writer's read and its publish): the retry must read what its new survey shows
+            "modrace": draw(st.sampled_from([None, None, None, "modify"]))}
 
 
 def run_shard(spec, ctx):
@@ -258,6 +260,49 @@ def run_case(case, ctx):
         from allmydata.mutable.common import MODE_READ
         from allmydata.mutable.retrieve import Retrieve
         from allmydata.util.consumer import MemoryConsumer
+        if case.get("modrace"):
+            for s_ in g.servers:
+                s_.down = False
+                s_.reconnect()
+            from allmydata.mutable import retrieve as _rt
+            reads_ = []
+            orig_init = _rt.Retrieve.__init__
+
+            def init_(self_, filenode, storage_broker, servermap, verinfo, *a_, **kw_):
+                if storage_broker is g.c0.broker:
+                    best_ = servermap.best_recoverable_version()
+                    reads_.append((verinfo[0], best_[0] if best_ else None))
+                return orig_init(self_, filenode, storage_broker, servermap, verinfo, *a_, **kw_)
+            _rt.Retrieve.__init__ = init_
+            B_ = g.add_client()
+            nodeB_ = B_.nodemaker.create_from_cap(cap)
+            state_ = {"n": 0, "outs": [b"published-by-the-other-writer-" + PAD]}
+            wm_ = len(written)
+
+            def modifier(old_, servermap_, first_time_):
+                state_["n"] += 1
+                if first_time_:
+                    # the other writer publishes now, i.e. after this writer has read the file and before it publishes
+                    rb_ = g.run(nodeB_.overwrite(mutfile.mdata(state_["outs"][0])))
+                    state_["other"] = rb_[0]
+                state_["outs"].append(old_ + b"+tag")
+                return old_ + b"+tag"
+            try:
+                rm_ = g.sched.run_until(node.modify(modifier), maxsteps=60000)
+            finally:
+                _rt.Retrieve.__init__ = orig_init
+            classes.add("modify-raced-by-another-writer")
+            classes.add("modify-race:" + (rm_[0] if rm_[0] != "err" else type(rm_[1]).__name__) + (":retried" if state_["n"] > 1 else ""))
+            for (got_, best_) in reads_:
+                ctx.check(best_ is None or got_ == best_, "modify-read-stale-version", "%s; then modify() raced by another writer's overwrite (%s): a read inside modify fetched seq%s although the survey it had just run shows seq%s as the best recoverable version (reads %r, modifier ran %d times, outcome %s)" % (
+                    desc(), state_.get("other"), got_, best_, reads_, state_["n"], rm_[0] if rm_[0] != "err" else type(rm_[1]).__name__), retried=state_["n"] > 1)
+            if rm_[0] == "hang":
+                ctx.fail("hang", "%s: modify() raced by another writer never completed" % desc())
+            # what the two writers may have stored under the sequence numbers they wrote
+            for (c_, ns_) in written[wm_:]:
+                contents.setdefault(ns_, []).extend(b_ for b_ in state_["outs"] if b_ not in contents.get(ns_, []))
+            history.append(("modify-raced", rm_[0] if rm_[0] != "err" else type(rm_[1]).__name__))
+            truth = disk()
         pub = {v for vs in contents.values() for v in vs}
         for ri, (offline, sched, kills, ro_reader, swapdown) in enumerate(case["reads"]):
             for s in g.servers:
